@@ -10,6 +10,7 @@
   `EFLRSet._make_body_bytes` is accepted and decodes to the description it was produced from.
 -/
 import Dlismodel.Proofs.Eflr
+import Dlismodel.Proofs.FileHeader
 namespace Dlis.C04
 open Dlis
 
@@ -85,9 +86,21 @@ end Dlis.C04
 
 namespace Dlis.C04
 open Dlis
-/-- FILE-HEADER (hand-written components in the code): a concrete instance decodes under the same grammar.
-This is a *test* of one instance, not the general statement; the general tie is the FILE-HEADER stream of the
-C04 correspondence, whose oracle runs `parseEflr` on every body the implementation produces. -/
+/-- FILE-HEADER (hand-written components in the code, not produced by `setBody`): *every* body the model of
+`FileHeaderSet._make_body_bytes` produces — any object name, sequence number and identifier it accepts — decodes
+under the same grammar, to one set FILE-HEADER with the template SEQUENCE-NUMBER, ID (both ASCII) and one object
+carrying the 10- and 65-character values. -/
+theorem fileHeader_parses (name : ObName) (seqNo : Int) (hid : PStr) (b : Bytes)
+    (h : fileHeaderBody name seqNo hid = .ok b) :
+    ∃ s i, justify (intStr seqNo) 10 false = .ok s ∧ justify hid 65 true = .ok i ∧
+      parseEflr b = some
+        { type := sFILEHEADER.map b8, name := none, template := fhTemplate,
+          objects := [{ name := obnameVal name,
+                        attrs := [some { count := 1, rc := 20, units := [], vals := [b8 10 :: s] },
+                                  some { count := 1, rc := 20, units := [], vals := [b8 65 :: i] }] }] } :=
+  Dlis.parseEflr_fileHeaderBody name seqNo hid b h
+
+/-- non-vacuity: a concrete instance is accepted by `fileHeaderBody` and decodes as stated (a test of one instance) -/
 theorem fileHeader_instance :
     ((fileHeaderBody { origin := 1, copy := 0, name := [48] } 7 [72, 68, 82]).toOption.bind parseEflr).map
         (fun d => (d.template.map (·.rc), d.objects.map (fun o => o.attrs.map (fun a => a.map (·.count))))) =
